@@ -108,6 +108,7 @@ type Tree struct {
 type Locals struct {
 	Struct, Func, Slice, Map, Chan, Gen, Key, Alias, StrIf, Union, Secret, Const, Emb, EmbMethod string
 	GenBase string // generic local interface usable for embedding
+	LowerAlias string // unexported alias spelled like its target: type person = Person
 	GenStore string // generic local interface with two parameters (instantiated through aliases / defined types)
 }
 
@@ -221,7 +222,7 @@ var (
 	depNamePool   = []string{"one", "two", "store", "model", "client", "util", "types", "api", "foo", "bar"}
 	depVarLikePool = []string{"s", "n", "err", "fn", "val", "ctx", "b", "f", "v", "id", "sync", "json", "template", "context", "http"}
 	depParentPool = []string{"a", "b", "c", "x/y", "internal/z", "pkg", "c/b", "third_party/a", "lib.v2", "go-kit", "kit-go"}
-	structNamePool = []string{"Thing", "Client", "Request", "Config", "Item", "Record", "T"}
+	structNamePool = []string{"Thing", "Client", "Request", "Config", "Item", "Record", "T", "Time", "Context"}
 	localStructPool = []string{"Person", "Account", "Order", "Entry", "Node"}
 	srcNamePool   = []string{"store", "svc", "domain", "repo", "core", "sync", "http"}
 )
@@ -368,6 +369,12 @@ func (b *builder) makeDeps() {
 			if base := dir[strings.LastIndex(dir, "/")+1:]; base != name && isIdent(base) && b.chance(0.4) {
 				d.SrcAlias = base
 			}
+			// an alias that is another dependency's package name (the other one imported bare in another file)
+			if len(names) > 1 && b.chance(0.2) {
+				if o := names[b.rng.Intn(len(names)-1)]; o != name {
+					d.SrcAlias = o
+				}
+			}
 			if !b.hz.NumberedVsQualifier && looksNumbered(d.SrcAlias) {
 				d.SrcAlias = name + "x"
 			}
@@ -451,6 +458,7 @@ func (b *builder) makeLocals() {
 	l.EmbMethod = "LocalEm"
 	l.GenBase = "GenBase"
 	l.GenStore = "GenStore"
+	l.LowerAlias = strings.ToLower(l.Struct[:1]) + l.Struct[1:]
 }
 
 func (b *builder) depSource(d *Dep) string {
@@ -506,6 +514,7 @@ func (b *builder) render() {
 	fmt.Fprintf(&ty, "type %s[T any] struct{ V T }\n\n", l.Gen)
 	fmt.Fprintf(&ty, "type %s int\n\nfunc (%s) String() string { return \"\" }\n\nfunc (k %s) Less(o %s) bool { return k < o }\n\n", l.Key, l.Key, l.Key, l.Key)
 	fmt.Fprintf(&ty, "type %s = %s\n\n", l.Alias, l.Struct)
+	fmt.Fprintf(&ty, "type %s = %s\n\n", l.LowerAlias, l.Struct)
 	fmt.Fprintf(&ty, "type %s interface{ String() string }\n\n", l.StrIf)
 	fmt.Fprintf(&ty, "type %s interface{ ~int | ~float64 }\n\n", l.Union)
 	fmt.Fprintf(&ty, "type %s struct{ v int }\n\n", l.Secret)
